@@ -449,7 +449,12 @@ func runRace(a map[string]string, pool service.TransactionPool) {
 	srcs := canonicalSources(r)
 	evals := 0
 	var findings []finding
-	for round := 0; round < rounds; round++ {
+	phases := a["phases"]
+	mixedRounds := rounds
+	if phases == "delivery" {
+		mixedRounds = 0
+	}
+	for round := 0; round < mixedRounds; round++ {
 		w.Reset(true, true, true, true, 0)
 		sets := make([][]*types.Transaction, G)
 		for g := 0; g < G; g++ {
@@ -624,6 +629,13 @@ func runRace(a map[string]string, pool service.TransactionPool) {
 			}
 		}
 	}
+	// phase 3: scenario family "block delivery" (delivery.go)
+	dRounds := hx.ArgInt(a, "delivery", rounds)
+	if phases == "" || phases == "delivery" {
+		df, de := blockDelivery(a, pool, r, dRounds)
+		findings = append(findings, df...)
+		evals += de
+	}
 	seen := map[string]bool{}
 	for _, f := range findings {
 		if seen[f.Key] {
@@ -633,6 +645,6 @@ func runRace(a map[string]string, pool service.TransactionPool) {
 		b, _ := json.Marshal(f)
 		fmt.Println("FINDING " + string(b))
 	}
-	fmt.Printf("SEARCH {\"evaluations\":%d,\"rounds\":%d,\"goroutines\":%d}\n", evals, rounds, G+2)
+	fmt.Printf("SEARCH {\"evaluations\":%d,\"rounds\":%d,\"delivery_rounds\":%d,\"goroutines\":%d}\n", evals, mixedRounds, dRounds, G+2)
 	os.Stdout.Sync()
 }
